@@ -17,10 +17,11 @@ import random
 import common as C
 
 PID = "C17"
-DRIVER = [("C17", "TfPwaV.Model.Override", "Override.handle")]
-LEAN_TARGETS = ["TfPwaV.Props.C17", "TfPwaV.Props.C17b"]
-PROP_MODULES = ["TfPwaV.Props.C17", "TfPwaV.Props.C17b"]
-ALL_MODULES = ["TfPwaV.Model.Override", "TfPwaV.Proofs.Override", "TfPwaV.Props.C17", "TfPwaV.Props.C17b"]
+DRIVER = [("C17", "TfPwaV.Model.Override", "Override.handle"), ("C17y", "TfPwaV.Model.OverrideY", "OverrideY.handle")]
+LEAN_TARGETS = ["TfPwaV.Props.C17", "TfPwaV.Props.C17b", "TfPwaV.Props.C17c"]
+PROP_MODULES = ["TfPwaV.Props.C17", "TfPwaV.Props.C17b", "TfPwaV.Props.C17c"]
+ALL_MODULES = ["TfPwaV.Model.Override", "TfPwaV.Proofs.Override", "TfPwaV.Props.C17", "TfPwaV.Props.C17b",
+               "TfPwaV.Model.OverrideY", "TfPwaV.Proofs.OverrideY", "TfPwaV.Props.C17c"]
 ASSUMPTIONS = [
     "Python semantics assumed by the model: generator-based @contextmanager (statements after `yield` are skipped when the body raises unless in `finally`); an abandoned generator (factor_iteration, split_gls) is finalised by CPython as soon as the exception that made its consumer stop has been handled (the harness drops the exception and calls gc.collect() before it looks at the state); iteration over a `set` of small ints is ascending; dict insertion order",
     "faults are: user code raising inside a block body, the k-th density evaluation inside a computation raising (harness wraps decay_group.sum_amp / get_amp), and a value that tf.Variable.assign rejects in a params dict; faults inside the restore statements themselves are not modelled",
@@ -30,6 +31,8 @@ ASSUMPTIONS = [
     "round 3: ConfigLoader.likelihood_profile is run with self.fit replaced by a stub that assigns pool values to every trainable variable and raises at the chosen call (the scan, set_fix and the restoring are the library's); ConfigLoader.get_params_error is run with method='correct', force_pos=False and Model.nll / Model.nll_grad_hessian replaced by counting stubs (FCN, set_params, cal_hesse_correct are the library's); the values such inner steps leave in the variables are an unspecified value `tmp` in the model and a wildcard in the comparison; plot_partial_wave_interf is entered with plot_partial_wave replaced by a capture of its weights_function; _cal_partial_wave is called with empty plot_var_dic / chain_property; PlotAllData gets the 16-event sample wrapped in a dict with get_weight()",
     "ConfigLoader.inv_he (the error matrix get_params_error stores for later fit-fraction errors) is an output of get_params_error, not part of the compared state; the harness clears it before every program",
     "the site inventory (harness/c17_sites.py) is syntactic: calls are recognised by the NAME of the called attribute (temp_params, set_used_res, set_params, set_all, set_fix, assign, ...) and assignments by the attribute name (chains_idx, not_full, mask_vars, mask_factor, trainable_vars); state reached through getattr/setattr, aliases or list methods (trainable_vars.append) is not seen",
+    "round 4: selection statements (add_used_chains / set_used_chains / set_used_res) in a body are PERMANENT edits by design, like set_params: a block node is blamed for chains_idx / not_full only when every selection statement under it sits inside a temp_used_res / keep_used_chains block; generated statements use valid chain indices and never an empty selection; in the tree before fix_C17_used_chains.diff keep_used_chains does not exist (model: AttributeError before any change)",
+    "round 4, entry-point probes (harness/c17_y.py): rig C = the 4-body cascade built with amp_model / preprocessor cached_shape and the mass of R2 floating (cached_shape_idx = [0, 2], fixed by the first build_cached from the FULL selection); the fault is injected by replacing tf_pwa.experimental.build_amp.build_params_vector (pdf / build_cached import it at call time); attach_fix_params_error and get_params_error(method='3-point' / default branch, in a scratch working directory) run with ConfigLoader.get_fcn returning one FCN built by the real get_fcn on the 16-event sample and Model.nll / nll_grad_hessian replaced by counting stubs (identity Hessian): the freeing / re-fixing / restoring statements are the library's; cal_signal_yields runs with ConfigLoader.get_data / _get_bg_weight replaced by stubs that hand out the 16-event sample (the bg=None path of the library raises TypeError when it unpacks N_total: not a state matter, not used); eval_normal_factors is called on a SimpleNllFracModel constructed directly around the amplitude of rig B; the Lean programs cachedShapePdf(AsIs), buildCached(AsIs), attachFixParamsError (variant chosen per site by whether its probes leak) and the per-object model glsOneObjs are compared line by line with what the probes observe (selection, not_full, per-object mask_factor, trainable_vars order, raised)",
     "quick tier only: in two of three random programs the density evaluations inside a computation after its first one return the first result again (the harness already wraps that function to inject faults); probes, systematic programs and the thorough tier evaluate every time",
 ]
 
@@ -267,6 +270,8 @@ class Rig:
             return self.amp.temp_used_res([self.sel(s) for s in b[1]])
         if k == "g1":
             return self.amp.temp_total_gls_one()
+        if k == "kc":
+            return self.dg.keep_used_chains()
         if k == "tc":
             return self.tcfg.temp_config(CFG_KEYS[b[1]] if b[1] < len(CFG_KEYS) else "verif_c17_missing", self.pool[b[2]])
         raise ValueError(k)
@@ -441,6 +446,16 @@ class Rig:
         if k == "setp":  # the user code of a body assigns parameters: permanent by design
             self.amp.set_params(self.pdict(prog[1]))
             return
+        # selection statements of the user code of a body: permanent edits of the chain selection
+        if k == "addc":
+            self.dg.add_used_chains([int(i) for i in prog[1]])
+            return
+        if k == "setc":
+            self.dg.set_used_chains([int(i) for i in prog[1]])
+            return
+        if k == "setr":
+            self.dg.set_used_res([self.sel(x) for x in prog[1]])
+            return
         if k == "seq":
             self.run_node(prog[1], rec)
             self.run_node(prog[2], rec)
@@ -525,7 +540,7 @@ SITE_NAME = {
     "vts": "VarsManager.temp_params(sequence)", "evn": "amp(data)", "cbn": "ConfigLoader.cal_bins_numbers",
     "pla": "PlotAllData", "pam": "factor_system.partial_amp", "ccf": "ConfigLoader.cal_fitfractions",
     "cpw": "ConfigLoader._cal_partial_wave", "pwif": "plot_partial_wave_interf.weights_function",
-    "lp": "ConfigLoader.likelihood_profile", "pe": "ConfigLoader.get_params_error",
+    "lp": "ConfigLoader.likelihood_profile", "pe": "ConfigLoader.get_params_error", "kc": "keep_used_chains",
 }
 COMPONENTS = ["params", "mask_vars", "chains_idx", "not_full", "mask_factor", "config", "ls", "trainable"]
 
@@ -545,14 +560,48 @@ def unguarded_setp(p):
     return False
 
 
+SEL_STMTS = ("addc", "setc", "setr")
+
+
+def unguarded_sel(p):
+    """does the program edit the chain selection (add_used_chains / set_used_chains / set_used_res in a body) outside
+    every chain-restoring block (temp_used_res, keep_used_chains)?"""
+    k = p[0]
+    if k in SEL_STMTS:
+        return True
+    if k == "blk":
+        return False if p[1][0] in ("ur", "kc") else unguarded_sel(p[2])
+    if k == "seq":
+        return unguarded_sel(p[1]) or unguarded_sel(p[2])
+    return False
+
+
+def has_y(p):
+    """does the program use the grammar of Model/OverrideY.lean (selection statements, keep_used_chains)?"""
+    k = p[0]
+    if k in SEL_STMTS:
+        return True
+    if k == "blk":
+        return p[1][0] == "kc" or has_y(p[2])
+    if k == "seq":
+        return has_y(p[1]) or has_y(p[2])
+    return False
+
+
+def meant_to_stay(c, prog):
+    """components a permanent edit of the user code is MEANT to change"""
+    return (c == "params" and unguarded_setp(prog)) or (c in ("chains_idx", "not_full") and unguarded_sel(prog))
+
+
 def leaks(nodes, out):
     """innermost nodes whose exit state differs from their entry state -> list of (key, node, component)"""
     any_leak = False
     for nd in nodes:
         child = leaks(nd["children"], out)
         # parameters assigned by a set_params of the body outside any amp.temp_params are meant to stay
+        # (likewise the selection edited by a selection statement outside any temp_used_res / keep_used_chains)
         diff = [c for c in COMPONENTS if nd["before"][c] != nd["after"][c]
-                and not (c == "params" and nd["prog"][0] == "blk" and unguarded_setp(nd["prog"]))]
+                and not (nd["prog"][0] == "blk" and meant_to_stay(c, nd["prog"]))]
         if diff:
             any_leak = True
             if not child:
@@ -587,6 +636,10 @@ def s_prog(p):
         return [k]
     if k == "setp":
         return ["setp"] + s_list(p[1], s_pv)
+    if k in ("addc", "setc"):
+        return [k] + s_list(p[1], lambda i: [str(i)])
+    if k == "setr":
+        return ["setr"] + s_list(p[1], s_sel)
     if k == "seq":
         return ["seq"] + s_prog(p[1]) + s_prog(p[2])
     if k == "blk":
@@ -599,6 +652,8 @@ def s_prog(p):
             t = ["ur"] + s_list(b[1], s_sel)
         elif b[0] == "g1":
             t = ["g1"]
+        elif b[0] == "kc":
+            return ["kc"] + s_prog(p[2])
         else:
             t = ["tc", str(b[1]), str(b[2])]
         return ["blk"] + t + s_prog(p[2])
@@ -657,7 +712,7 @@ def s_state(st):
 
 
 def line(rig, flags, st, prog):
-    return " ".join(["C17", "run"] + s_list([flags[s] for s in SITES], lambda x: ["1" if x else "0"]) + s_env(rig)
+    return " ".join(["C17y" if has_y(prog) else "C17", "run"] + s_list([flags[s] for s in SITES], lambda x: ["1" if x else "0"]) + s_env(rig)
                     + s_state(st) + s_prog(prog))
 
 
@@ -793,6 +848,30 @@ def probes(rig):
               blk(("ur", [("r", 0)]), blk(("g1",), blk(("tc", 0, v[8]), ("setp", [(f[9], v[8])]))))))
     P.append(("vmTemp", "vm.temp_params restores its keys only: set_params on its key and on another one", {},
               blk(("vt", [(f[7], v[7])]), ("setp", [(f[7], v[3]), (f[9], v[8])]))))
+    # round 4: selection statements in a body, the block keep_used_chains (restricted and unrestricted entry states)
+    kc = lambda body=("skip",): ("blk", ("kc",), body)
+    seq = lambda *ps: ps[0] if len(ps) == 1 else ("seq", ps[0], seq(*ps[1:]))
+    one = {"chains": [1], "nf": True}
+    for ename, entry in (("restricted entry selection", partial), ("single-chain entry selection", one), ("full entry selection", {})):
+        P.append(("-", "keep_used_chains: add_used_chains first, normal exit; " + ename, entry, kc(("addc", [1, 2]))))
+        P.append(("-", "keep_used_chains: add_used_chains first, body raises; " + ename, entry, kc(seq(("addc", [0]), ("addc", [2]), raise_))))
+        P.append(("-", "keep_used_chains: set_used_chains, add_used_chains, set_used_res, evaluation; " + ename, entry,
+                  kc(seq(("setc", [1]), ("addc", [2, 1]), ("setr", [("r", 0), ("i", 1)]), cmp_(("evn", 1))))))
+        P.append(("-", "keep_used_chains: set_used_res first then add_used_chains, evaluation raises; " + ename, entry,
+                  kc(seq(("setr", [("r", 2)]), ("addc", [0]), cmp_(("evn", 1), 0)))))
+        P.append(("usedRes", "temp_used_res: add_used_chains / set_used_chains in the body; " + ename, entry,
+                  blk(("ur", [("r", 0)]), seq(("addc", [2]), ("setc", [1, 0]), ("addc", [2])))))
+        P.append(("usedRes", "temp_used_res > keep_used_chains > add_used_chains; " + ename, entry,
+                  blk(("ur", [("r", 0)]), kc(("addc", [1])))))
+        P.append(("usedRes", "temp_used_res > keep_used_chains > add_used_chains, raise; " + ename, entry,
+                  blk(("ur", [("r", 1), ("i", 0)]), kc(seq(("addc", [2]), raise_)))))
+    P.append(("-", "set_used_res (permanent), then keep_used_chains > add_used_chains", {}, seq(("setr", [("r", 0)]), kc(("addc", [2])))))
+    P.append(("-", "set_used_chains (permanent), then keep_used_chains > add_used_chains, raise", {}, seq(("setc", [2, 1]), kc(seq(("addc", [0]), raise_)))))
+    P.append(("-", "keep_used_chains > keep_used_chains > add_used_chains; outer add afterwards", partial, kc(seq(kc(("addc", [1])), ("addc", [1]), cmp_(("pw", [[("i", 0)]]))))))
+    P.append(("-", "selection statements inside mask_params / temp_total_gls_one / temp_params are kept", partial,
+              blk(("mp", [(f[2], 0)]), blk(("g1",), blk(("at", [(f[6], v[5])]), seq(("addc", [1]), ("setr", [("r", 1), ("i", 2)])))))))
+    P.append(("-", "keep_used_chains around partial_weight and cal_fitfractions with add_used_chains in between", partial,
+              kc(seq(("addc", [1]), cmp_(("pw", [[("r", 0)]])), ("addc", [1]), cmp_(("cff", 1, [("r", 1)]), 1)))))
     out = []
     for site, name, mod, prog in P:
         st = rig.base_state()
@@ -885,7 +964,9 @@ def gen_pdict(rig, rnd, bad_ok, pool):
 
 
 def gen_block(rig, rnd):
-    k = rnd.choice(["at", "at", "ats", "ats", "vt", "vt", "mp", "mp", "ur", "ur", "g1", "tc", "vts"])
+    k = rnd.choice(["at", "at", "ats", "ats", "vt", "vt", "mp", "mp", "ur", "ur", "g1", "tc", "vts", "kc", "kc"])
+    if k == "kc":
+        return ("kc",)
     if k == "at":
         return ("at", gen_pdict(rig, rnd, True, rig.free))
     if k in ("ats", "vts"):
@@ -963,14 +1044,28 @@ def gen_prog(rig, rnd, depth, budget, cheap):
         return ("raise",)
     if r < 0.13:
         return ("setp", gen_pdict(rig, rnd, True, rig.free))
+    if r < 0.21:
+        return gen_sel_stmt(rig, rnd)
     if r < 0.42 or depth == 0:
         budget[0] -= 1
         fault = rnd.choice([0, 0, 1, 1, 2, 3, 5, 8]) if rnd.random() < 0.3 else None
         return ("cmp", gen_comp(rig, rnd, cheap), fault)
     if r < 0.80:
         budget[0] -= 1
-        return ("blk", gen_block(rig, rnd), gen_prog(rig, rnd, depth - 1, budget, cheap))
+        b = gen_block(rig, rnd)
+        body = gen_prog(rig, rnd, depth - 1, budget, cheap)
+        if b[0] in ("kc", "ur") and rnd.random() < 0.5:  # a selection statement as the FIRST statement of the body
+            body = ("seq", gen_sel_stmt(rig, rnd), body)
+        return ("blk", b, body)
     return ("seq", gen_prog(rig, rnd, depth, budget, cheap), gen_prog(rig, rnd, depth, budget, cheap))
+
+
+def gen_sel_stmt(rig, rnd):
+    """add_used_chains / set_used_chains / set_used_res with valid chain indices, never an empty selection"""
+    k = rnd.choice(["addc", "addc", "setc", "setr"])
+    if k == "setr":
+        return ("setr", [gen_sel(rig, rnd, True)] + [gen_sel(rig, rnd) for _ in range(rnd.choice([0, 1]))])
+    return (k, rnd.sample(range(rig.n), rnd.randint(1, rig.n)))
 
 
 def prog_depth(p):
@@ -1031,7 +1126,17 @@ def systematic(R, quick):
         progs += [("blk", o, ("cmp", c, fault)) for o in blocks for c in comps for fault in (None, 0)]
     st = R.base_state()
     st["params"][R.bounded[0]] = v[9]
-    return [(dict(st, params=list(st["params"])), p) for p in progs]
+    out = [(dict(st, params=list(st["params"])), p) for p in progs]
+    if not quick:
+        # round 4: every block kind (keep_used_chains included) around a selection statement as FIRST statement of the body,
+        # from the full and from a restricted entry selection, normal / raising
+        stmts = [("addc", [1]), ("setc", [2, 0]), ("setr", [("r", 1), ("i", 0)])]
+        for o in blocks + [("kc",)]:
+            for stmt in stmts:
+                for body in (("skip",), ("raise",), ("cmp", ("pw", [[("i", 1)]]), 0)):
+                    for entry in ({}, {"chains": [2, 0], "nf": True}, {"chains": [1], "nf": True}):
+                        out.append((dict(st, params=list(st["params"]), **entry), ("blk", o, ("seq", stmt, body))))
+    return out
 
 
 def run_cases(ctx):
@@ -1132,6 +1237,37 @@ def correspond(ctx, res):
                     for i in (0, cnt["probes"], len(items) // 2, len(items) - 1)]
     if dis:
         res.broke("correspondence Override.exec vs real objects (variant %s)" % res.coverage["model_variant"], dis[:5])
+    correspond_objects(ctx, res)
+
+
+def correspond_objects(ctx, res):
+    """the per-object model of temp_total_gls_one (OverrideY.glsOneObjs, theorem restore_shared_objects) against the real
+    block with the real visiting sequence (object identities) of rigs A, B and the cached_shape rig C"""
+    import c17_y
+    lines, seen = c17_y.gls_lines()
+    outs = ctx.model.query(lines)
+    b = lambda l: " ".join([str(len(l))] + ["1" if x else "0" for x in l])
+    dis, fused_differs = [], 0
+    for (name, visit, flags, raises, inside, after), out in zip(seen, outs):
+        if out == "bad-op":
+            raise C.ModelBroken("model rejected a gls line")
+        want = b(inside) + " " + b(after)
+        if not out.startswith(want + " "):
+            dis.append({"rig": name, "visit": visit, "flags_at_entry": flags, "body_raises": raises, "impl_inside_after": want, "model": out})
+        fused_differs += out != want + " " + b(after)
+    res.coverage["per_object_mask_factor"] = {
+        "blocks_compared": len(lines), "disagreements": len(dis), "visiting_sequences": {n: v for n, v, *_ in seen},
+        "cases_where_the_fused_loop_of_the_model_would_differ": fused_differs}
+    if dis:
+        res.broke("correspondence OverrideY.glsOneObjs vs temp_total_gls_one (per-object mask_factor, shared decay objects)", dis[:4])
+    # the transcriptions of the round-4 entry points against what their probes saw on the real objects
+    lines, want, what = c17_y.model_lines(y_probes(ctx))
+    outs = ctx.model.query(lines)
+    dis = [{"probe": w[0], "variant": w[1], "impl": x, "model": o} for w, x, o in zip(what, want, outs) if x != o]
+    res.coverage["entry_point_models_compared"] = {"lines": len(lines), "disagreements": len(dis),
+                                                   "variants": {k: v for k, v in sorted({(w[0].split(";")[0], w[1]) for w in what})}}
+    if dis:
+        res.broke("correspondence cachedShapePdf / buildCached / attachFixParamsError (Model/OverrideY.lean) vs real objects", dis[:4])
 
 
 def search(ctx, res):
@@ -1159,7 +1295,7 @@ def search(ctx, res):
                 SITE_NAME[nd["prog"][1][0]], comp, nd["outcome"], (", entry " + "+".join(nd["entry"])) if nd["entry"] else "",
                 _short(nd["before"][comp]), _short(nd["after"][comp]), "model %s: " % R.name + " ".join(s_prog(prog))),
                 {"rig": R.name, "init": st, "prog": prog, "key": key})
-        if not found and any(r["after"][c] != r["before"][c] for c in COMPONENTS if not (c == "params" and unguarded_setp(prog))):
+        if not found and any(r["after"][c] != r["before"][c] for c in COMPONENTS if not meant_to_stay(c, prog)):
             res.fail("unattributed-state-change", "state changed outside any block / computation: model %s: " % R.name + " ".join(s_prog(prog)), {"rig": R.name, "init": st, "prog": prog})
         for a in r["hidden_attrs"]:
             res.fail("object-attribute-changed-with-equal-observed-state:" + a, "attribute %s of a chain / decay / particle object differs after the program although the observed state is restored: model %s: %s" % (
@@ -1167,6 +1303,7 @@ def search(ctx, res):
         if not r["same_density"]:
             res.fail("density-changed-with-equal-observed-state", "density of the fixed sample differs although the observed state is restored: model %s: " % R.name + " ".join(s_prog(prog)),
                      {"rig": R.name, "init": st, "prog": prog})
+    outside += search_entry_points(ctx, res)
     if os.environ.get("C17_DUMP_FINDINGS"):  # development aid: the failures of this run as known_findings lines
         with open(os.environ["C17_DUMP_FINDINGS"], "w") as f:
             for g in res.failures:
@@ -1177,6 +1314,40 @@ def search(ctx, res):
     res.coverage["state_changes_observed_outside_the_statement"] = sorted(outside)
     if outside:
         res.notes.append("state changes by entry points that the statement of C17 does not list (recorded, not judged): " + ", ".join(sorted(outside)))
+
+
+def y_probes(ctx):
+    if getattr(ctx, "c17_y_probes", None) is None:
+        import c17_y
+        ctx.c17_y_probes = c17_y.cached_shape_probes() + c17_y.config_loader_probes()
+    return ctx.c17_y_probes
+
+
+def search_entry_points(ctx, res):
+    """round 4: CachedShapeAmplitudeModel.pdf, CachedShapePreProcessor.build_cached (cached_shape rig C), attach_fix_params_error,
+    get_params_error(3-point), ConfigLoader.cal_fitfractions(method new / old, nested res) on rig B: observation before ==
+    observation after, per object (harness/c17_y.py)"""
+    import c17_y
+    outside, seen, n_leaky = [], {}, 0
+    items = y_probes(ctx)
+    for name, entry, r in items:
+        n_leaky += bool(r["leaks"])
+        for key, comp, b, a in r["leaks"]:
+            if key in seen:
+                continue
+            seen[key] = True
+            if key.startswith(c17_y.OUTSIDE_STATEMENT):
+                outside.append(key)
+                continue
+            res.fail(key, "%s leaves %s changed (%s%s): %s -> %s; probe: %s" % (
+                r["site"], comp, r["outcome"], (" at evaluation %d: %s" % (r["fault"], r["text"])) if r["outcome"] != "normal" else "", _short(b), _short(a), name),
+                {"y_probe": name, "key": key})
+    res.coverage["entry_point_probes"] = {
+        "probes": len(items), "with_a_leak": n_leaky, "leak_keys": sorted(seen),
+        "sites": sorted({r["site"] for _, _, r in items}),
+        "raised": sum(1 for _, _, r in items if r["outcome"] != "normal"),
+        "evaluations": sum(r["evals"] for _, _, r in items)}
+    return outside
 
 
 # ConfigLoader.likelihood_profile (runs fits) and ConfigLoader.get_params_error (sets `params`, finite differences) are in the
@@ -1196,6 +1367,14 @@ def _tuplify(p):
 
 def replay(ctx, payload):
     rp = payload.get("replay") or {}
+    if "y_probe" in rp:
+        bad = 0
+        for name, entry, r in y_probes(ctx):
+            if name == rp["y_probe"]:
+                for key, comp, b, a in r["leaks"]:
+                    print("leak %s: %s -> %s" % (key, _short(b), _short(a)))
+                    bad = 1
+        return bad
     R = rig(rp.get("rig", "A"))
     if "prog" not in rp:
         print("nothing to replay: " + str(payload.get("broken"))[:500])
@@ -1216,7 +1395,7 @@ def replay(ctx, payload):
 
 
 MANIFEST = {
-    "text": "For every program built from override blocks (temp_params in dict AND sequence form, vm.temp_params, mask_params, temp_used_res, temp_total_gls_one, temp_config, nested in any way), derived computations (partial_weight, partial_weight_interference, cal_fitfractions / fit_fractions / ConfigLoader.cal_fitfractions / cal_signal_yields, FitFractions.integral, factor_iteration, build_amp_matrix, the weight computations of plot_partial_wave and plot_partial_wave_interf, cal_bins_numbers, PlotAllData = get_all_plotdatas / get_plotter, likelihood_profile, get_params_error, factor_system.partial_amp, eval_normal_factors) and faults (a body raising, any inner density evaluation / fit / likelihood evaluation raising, a rejected value, a too short sequence), the observable state (stored parameter values, mask_vars, chains_idx, not_full, mask_factor flags, configuration, ls selection, the trainable_vars list with its order) after the program equals the state before it; a set_params in a body is undone exactly when it sits inside an amp.temp_params block and otherwise changes the parameter values only. Every call / assignment in the package that can change this state is inventoried from the source on every run and must be on the reviewed list.",
-    "note": "Lean: Model/Override.lean gives the big-step semantics of both the tree as it is and the tree after fix_C17_*.diff (18 per-site flags, observed per run; PlotAllData and factor_system.temp_var violated the statement on the pinned tree and were repaired in /repo by cdd15db and 7f17cec (kind 'fixed' in known_findings.jsonl); likelihood_profile and get_params_error — a fit scan and an error calculation, which the property statement does not enumerate — are modelled and compared with the code in both variants, what they leave behind is recorded in the evidence (state_changes_observed_outside_the_statement) but never judged; candidate patches C17-likelihood_profile.diff, C17-params_error.diff are kept unapplied). Props/C17.lean: restore_upTo (every covered program, set_params anywhere: everything but the parameters restored), restore_covered / restore_all (every guarded program, every fault, every state: everything restored), refutations for the as-is variant, restore_all_partial. Props/C17b.lean: the further entry points as instances (all arguments, all fault positions), 10 as-is witnesses for the four unpatched sites, sequence-form / nesting / set_params statements. Proved about the model; tied to the code by (a) one probe per site and outcome on the real objects that selects the variant, (b) exact comparison model vs real objects on probes, systematic and seeded random programs (values written by a fit / a finite-difference step are a wildcard), (c) the AST inventory harness/c17_sites.py (105 sites: 50 modelled, 6 through an identical site, 49 excluded with reason; 4 of the excluded ones are read-only computations that are NOT covered: CachedShapeAmplitudeModel.pdf, CachedShapePreProcessor.build_cached, attach_fix_params_error). Validated only (not proved, not driven): cal_signal_yields and eval_normal_factors (proved as derived programs, not run), get_params_error with method 3-point / the default Hessian branch, likelihood_profile with a real fit (a stub fit moves the trainable variables), the numerics of the likelihood inside get_params_error (counting stubs).",
-    "technique": "proof (structural induction over programs) + differential correspondence + model-independent before/after search + AST site inventory",
+    "text": "For every program built from override blocks (temp_params in dict AND sequence form, vm.temp_params, mask_params, temp_used_res, keep_used_chains, temp_total_gls_one, temp_config, nested in any way), body statements (set_params; add_used_chains / set_used_chains / set_used_res), derived computations (partial_weight, partial_weight_interference, cal_fitfractions / fit_fractions / ConfigLoader.cal_fitfractions / cal_signal_yields, FitFractions.integral, factor_iteration, build_amp_matrix, the weight computations of plot_partial_wave and plot_partial_wave_interf, cal_bins_numbers, PlotAllData = get_all_plotdatas / get_plotter, likelihood_profile, get_params_error, factor_system.partial_amp, eval_normal_factors, CachedShapeAmplitudeModel.pdf, CachedShapePreProcessor.build_cached, attach_fix_params_error) and faults (a body raising, any inner density evaluation / fit / likelihood evaluation raising, a rejected value, a too short sequence), the observable state (stored parameter values, mask_vars, chains_idx, not_full, mask_factor of every distinct chain and decay object, configuration, ls selection, the trainable_vars list with its order) after the program equals the state before it; a set_params in a body is undone exactly when it sits inside an amp.temp_params block, a selection statement exactly when it sits inside a temp_used_res / keep_used_chains block (which restore chains_idx and not_full whatever the body does to them, in any order, normally or by exception), and otherwise they change the parameter values / the selection only. Every call / assignment in the package that can change this state is inventoried from the source on every run and must be on the reviewed list.",
+    "note": "Lean: Model/Override.lean gives the big-step semantics of both the tree as it is and the tree after fix_C17_*.diff (18 per-site flags, observed per run; PlotAllData and factor_system.temp_var violated the statement on the pinned tree and were repaired in /repo by cdd15db and 7f17cec (kind 'fixed' in known_findings.jsonl); likelihood_profile and get_params_error — a fit scan and an error calculation, which the property statement does not enumerate — are modelled and compared with the code in both variants, what they leave behind is recorded in the evidence (state_changes_observed_outside_the_statement) but never judged; candidate patches C17-likelihood_profile.diff, C17-params_error.diff are kept unapplied). Props/C17.lean: restore_upTo, restore_covered / restore_all (every guarded program, every fault, every state), refutations for the as-is variant, restore_all_partial. Props/C17b.lean: the further entry points as instances, 10 as-is witnesses, sequence-form / nesting / set_params statements. ROUND 4 — Model/OverrideY.lean extends the grammar (execBlock / execComp reused; execY_agrees_on_old_programs) by the statements add_used_chains / set_used_chains / set_used_res and the block keep_used_chains; Props/C17c.lean: restoreY_rel (every covered program, statements anywhere: mask, mask_factor, config, ls, trainable restored; parameters if gP; selection if gC), restoreY_covered / restoreY_all, chain_block_restores_selection (temp_used_res / keep_used_chains restore chains_idx and not_full for ANY body), keep_chains_restores_all, keep_chains_selection_body, selection_statements_permanent, selection_in_other_blocks_kept; the variant of keep_used_chains that keeps the LIVE list (seeded change C17-04) is refuted (keep_live_refuted) and characterised (keep_live_iff, keep_live_after_rebinding: it restores exactly when the leading add_used_chains add nothing, e.g. whenever the first statement rebinds — every caller inside the library); restore_shared_objects (per-object mask_factor: save-all-then-set-all restores every object for ANY visiting sequence with repetitions and any body), fused_loop_refuted / fused_loop_ok_without_sharing; gls_one_block_is_per_object (the glsOne block of the program semantics = the per-object loop for every visiting sequence that reaches every object); restore_fit_fractions_nested_res; restore_cached_shape_pdf, restore_build_cached (patched programs, all arguments / faults / states), asis_cached_shape_normal_consistent, asis_cached_shape_leaks, restore_attach_fix_params_error (order of trainable_vars, any list of distinct fixed parameters), asis_attach_fix_params_error_leaks. Proved about the model; tied to the code by (a) one probe per site and outcome on the real objects that selects the variant, (b) exact comparison model vs real objects on probes (incl. 26 per rig for keep_used_chains / selection statements from restricted, single-chain and full entry selections), systematic and seeded random programs in the extended grammar (a selection statement is the first statement of half of the generated chain-restoring blocks), (c) the per-object model glsOneObjs compared line by line with the real temp_total_gls_one on the real visiting sequences of rigs A, B and the cached_shape rig C (5 flag patterns x normal / raising body), (d) harness/c17_y.py: model-independent before/after probes, per OBJECT (and, for pdf / build_cached / attach_fix_params_error, comparison with the Lean transcription of the observed variant), of CachedShapeAmplitudeModel.pdf and CachedShapePreProcessor.build_cached (5 entry states x normal / build_params_vector raising), attach_fix_params_error (normal, Hessian raising, bounded parameter), get_params_error(method='3-point') and its default Hessian branch (recorded, not judged), ConfigLoader.cal_fitfractions with method new / old and nested res (set_used_res rejects the nested list with TypeError; state restored), cal_signal_yields (two samples, full / restricted / stale entry states, fault in the first and in the second sample; get_data / _get_bg_weight stubbed), SimpleNllFracModel.eval_normal_factors (two constraints, one with mask_params, 4 entry states x every fault position), (e) the AST inventory harness/c17_sites.py (no read-only computation is left NOT COVERED). FINDINGS on the unchanged tree (proposed known_findings lines, kind 'finding'; the check exits 0 on the tree as it is and on the tree with the patches): CachedShapeAmplitudeModel.pdf and CachedShapePreProcessor.build_cached leave the subset selection / not_full behind when build_params_vector raises and clear a stale not_full on a normal exit (fixes/C17-cached_shape.diff: keep_used_chains); attach_fix_params_error leaves the given parameters free when the Hessian raises (fixes/C17-attach_fix_params_error.diff: finally). Validated only (not proved): likelihood_profile with a real fit (a stub fit moves the trainable variables), the numerics of the likelihood inside get_params_error / attach_fix_params_error (counting stubs), the 3-point / default branches of get_params_error (recorded only).",
+    "technique": "proof (structural induction over programs; list induction for shared objects) + differential correspondence + model-independent before/after search + AST site inventory",
 }
